@@ -111,7 +111,16 @@ QUICK_DEPTH2 = {"tiny", "quoted_dollar", "alias_late", "alias_chain", "inc_platf
 THOROUGH_DEPTH3 = {"tiny"}
 # members on which Next offers the nested-conditional step (as the first step; 36 variants per site)
 NEST_QUICK = {"nest2"}
-NEST_THOROUGH = {"nest2", "tiny", "tpl_listarg", "alias_chain"}
+NEST_THOROUGH = {"nest2", "tiny"}
+# members on which the wildcard deflayermap step also composes with a second step (elsewhere it is a first step only)
+WILD_DEEP = QUICK_DEPTH2 | {"lmap_wild"}
+# binding: pairs per shard, worker processes at a time, parses per worker process (every parsed configuration leaks its
+# arena in the harness process, so a worker is given a bounded number of configurations and then exits)
+SHARD_PAIRS = 5000
+MAX_PROCS = 4
+RUNS_PER_PROC = 4000
+# thorough: all one-step pairs are bound; compositions beyond the cap are sampled deterministically by VERIF_SEED
+PAIR_CAP = 120000
 # members that stay at one step in every tier (the nest step alone gives > 1000 successors)
 DEPTH1_ONLY = {"nest2"}
 # family members the parser rejects for a reason outside the indirection layers (Norm is "ok" for them)
@@ -133,6 +142,7 @@ MaxSteps == %(maxsteps)d
 Deep == %(deep)s
 Deep3 == %(deep3)s
 NestB == %(nestb)s
+WildDeep == %(wilddeep)s
 VARIABLES b, cfg, trail
 vars == <<b, cfg, trail>>
 N == Len(trail) + 1
@@ -152,7 +162,7 @@ Plat == \E loc \in Locs(cfg) : \E v \in 1..3 :
            CanPlatform(cfg, loc) /\ cfg' = StepPlatform(cfg, loc, v) /\ trail' = Append(trail, <<"platform", loc, v>>)
 LayerMap == \E loc \in Locs(cfg) :
            CanLayerMap(cfg, loc) /\ cfg' = StepLayerMap(cfg, loc) /\ trail' = Append(trail, <<"layermap", loc>>)
-LayerMapW == \E loc \in Locs(cfg) : \E w \in Wild :
+LayerMapW == (trail = <<>> \/ b \in WildDeep) /\ \E loc \in Locs(cfg) : \E w \in Wild :
            CanLayerMap(cfg, loc) /\ \E G \in SUBSET (1..Len(RawSrc(cfg))) : \E pos \in 0..Len(RawSrc(cfg)) :
            CanLayerMapW(cfg, loc, w, G, pos) /\ cfg' = StepLayerMapW(cfg, loc, w, G, pos)
            /\ trail' = Append(trail, <<"layermapw", loc, w, SetToSeq(G), pos>>)
@@ -166,6 +176,7 @@ Nest == b \in NestB /\ trail = <<>> /\
            /\ cfg' = StepNest(cfg, loc, p, q1, q2, k1, k2, t1, t2, N)
            /\ trail' = Append(trail, <<"nest", loc, p, q1, q2, k1, k2, t1, t2>>)
 Next == /\ Len(trail) < (IF b \in Deep3 THEN 3 ELSE IF b \in Deep THEN MaxSteps ELSE 1)
+        /\ (trail = <<>> \/ (trail[1][1] # "nest" /\ (trail[1][1] = "layermapw" => b \in WildDeep)))
         /\ b' = b
         /\ (Alias \/ Var \/ Tpl \/ Cond \/ Include \/ Plat \/ LayerMap \/ LayerMapW \/ Nest)
 BaseNorm == [k \in 1..Len(Base) |-> NormWhy(Base[k])]
@@ -211,8 +222,8 @@ def cfg_tla(cfg):
     return "[main |-> <<%s>>, files |-> <<%s>>]" % (", ".join(tree_tla(t) for t in cfg["main"]), files)
 
 
-def run_spec(wd, fam, maxsteps, deep, name="MC_CfgLang", workers=6, timeout=1500, deep3=(), mutate=None, nest=()):
-    """TLC over the family.  Returns (tlc result, bases, pairs).  mutate: text -> text of the generated module
+def run_spec(wd, fam, maxsteps, deep, name="MC_CfgLang", workers=4, timeout=1500, deep3=(), mutate=None, nest=(), wilddeep=()):
+    """TLC over the family.  Returns (tlc result, bases, path of the ndjson file of printed pairs).  mutate: text -> text of the generated module
     (specification self-test: a deliberately wrong rule must violate Transparent; returns the TLC result only)."""
     mod = name
     txt = MC_TEMPLATE % {
@@ -222,6 +233,7 @@ def run_spec(wd, fam, maxsteps, deep, name="MC_CfgLang", workers=6, timeout=1500
         "deep": "{" + ", ".join(str(i + 1) for i, (n, _) in enumerate(fam) if n in deep) + "}",
         "deep3": "{" + ", ".join(str(i + 1) for i, (n, _) in enumerate(fam) if n in deep3) + "}",
         "nestb": "{" + ", ".join(str(i + 1) for i, (n, _) in enumerate(fam) if n in nest) + "}",
+        "wilddeep": "{" + ", ".join(str(i + 1) for i, (n, _) in enumerate(fam) if n in wilddeep) + "}",
     }
     txt = txt.replace("====\n", "NoEnv == <<>>\n====\n")
     if mutate:
@@ -245,11 +257,49 @@ def run_spec(wd, fam, maxsteps, deep, name="MC_CfgLang", workers=6, timeout=1500
     for line in open(bf):
         o = json.loads(line)
         bases[o["b"]] = o
-    pairs = [json.loads(line) for line in open(pf)]
-    return r, bases, pairs
+    return r, bases, pf
+
+
+def iter_pairs(pf):
+    """the PAIR lines TLC printed, one at a time (the file of a thorough run holds > 100 k configurations)"""
+    with open(pf) as f:
+        for idx, line in enumerate(f):
+            yield idx, json.loads(line)
 
 
 # ---------------------------------------------------------------------------------- binding: the real parser
+_LIVE = set()
+
+
+def _die_with_parent():
+    """PR_SET_PDEATHSIG: the worker gets SIGKILL when this process dies, however it dies (OOM killer included)"""
+    try:
+        import ctypes, signal
+        ctypes.CDLL("libc.so.6", use_errno=True).prctl(1, int(signal.SIGKILL))
+    except Exception:
+        pass
+
+
+def spawn(argv):
+    pr = subprocess.Popen(argv, stdout=subprocess.PIPE, stderr=subprocess.STDOUT, text=True, preexec_fn=_die_with_parent)
+    _LIVE.add(pr)
+    return pr
+
+
+def reap(pr):
+    _LIVE.discard(pr)
+
+
+def kill_workers():
+    for pr in list(_LIVE):
+        try:
+            pr.kill()
+            pr.wait(timeout=10)
+        except Exception:
+            pass
+        _LIVE.discard(pr)
+
+
 class Texts:
     """deduplicated (main text, files) table"""
 
@@ -274,7 +324,7 @@ class Texts:
 def run_cfgeq(wd, texts, pairs, name, chunk=1500, procs=None):
     """pairs: [(ia, ib, id)].  Returns (status per text index {i: (status, msg, mapped)}, {id: pair result})."""
     build_harness()
-    procs = procs or min(NCPU, 12)
+    procs = procs or MAX_PROCS
     pairs = sorted(pairs, key=lambda p: (p[0], p[1]))
     chunks = [pairs[i:i + chunk] for i in range(0, len(pairs), chunk)]
     running = []
@@ -303,7 +353,8 @@ def run_cfgeq(wd, texts, pairs, name, chunk=1500, procs=None):
             j = json.load(open(inp))
             j["texts"][last] = {"skip": True}
             json.dump(j, open(inp, "w"))
-            p = subprocess.Popen([HARNESS, "cfgeq", inp, outp], stdout=subprocess.PIPE, stderr=subprocess.STDOUT, text=True)
+            reap(p)
+            p = spawn([HARNESS, "cfgeq", inp, outp])
         else:
             raise ToolError("cfgeq: too many parser aborts in one chunk")
         ended = False
@@ -315,9 +366,11 @@ def run_cfgeq(wd, texts, pairs, name, chunk=1500, procs=None):
                 pres[o["id"]] = o
             elif o["e"] == "end":
                 ended = True
+        reap(p)
         if not ended:
             raise ToolError("cfgeq output incomplete: " + outp)
         os.remove(outp)
+        os.remove(inp)
 
     for ci, ch in enumerate(chunks):
         local, gmap, lt, lp = {}, [], [], []
@@ -331,8 +384,7 @@ def run_cfgeq(wd, texts, pairs, name, chunk=1500, procs=None):
         inp = os.path.join(wd, "%s.%d.eq.json" % (name, ci))
         outp = os.path.join(wd, "%s.%d.eq.ndjson" % (name, ci))
         json.dump({"texts": lt, "pairs": lp, "detail": 1000000}, open(inp, "w"))
-        running.append((subprocess.Popen([HARNESS, "cfgeq", inp, outp], stdout=subprocess.PIPE,
-                                         stderr=subprocess.STDOUT, text=True), inp, outp, gmap))
+        running.append((spawn([HARNESS, "cfgeq", inp, outp]), inp, outp, gmap))
         if len(running) >= procs:
             collect(running.pop(0))
     while running:
@@ -340,33 +392,69 @@ def run_cfgeq(wd, texts, pairs, name, chunk=1500, procs=None):
     return tstat, pres
 
 
-def run_behaviour(wd, texts, scripts_of_text, name):
+def run_behaviour(wd, texts, scripts_of_text, name, digest=False):
     """scripts_of_text: {text index: [script...]}.  Runs every script on the real code; returns
-    {(text index, k): [trace lines]}."""
-    jobs = []
-    for ti, scripts in sorted(scripts_of_text.items()):
-        for k, s in enumerate(scripts):
-            jobs.append({"cfg": texts.items[ti]["cfg"], "files": texts.items[ti]["files"], "scripts": [s],
-                         "tag": "%d#%d" % (ti, k)})
-    if not jobs:
+    {(text index, k): [trace lines]}, or with digest {(text index, k): (number of lines, md5 of the trace)} so that a
+    shard of thousands of runs is not held in memory (the caller re-runs the few that differ for the lines).
+    Every run parses its configuration once and the harness keeps what it parsed, so the runs are dealt to worker
+    processes of at most RUNS_PER_PROC runs each, MAX_PROCS at a time."""
+    flat = [(ti, k, sc) for ti, scripts in sorted(scripts_of_text.items()) for k, sc in enumerate(scripts)]
+    if not flat:
         return {}
-    outs = run_jobs(jobs, wd, name)
+    build_harness()
     traces = {}
-    cur = None
-    for rc, jf, of, pj, so in outs:
-        if rc != 0:
-            raise ToolError("harness run failed rc=%s: %s" % (rc, (so or "")[-2000:]))
+    parts = [flat[i:i + RUNS_PER_PROC] for i in range(0, len(flat), RUNS_PER_PROC)]
+    if len(parts) < MAX_PROCS and len(flat) >= 200:
+        n = min(MAX_PROCS, len(flat) // 100)
+        parts = [flat[i::n] for i in range(n)]
+    running = []
+
+    def collect(ent):
+        pr, jf, of = ent
+        so, _ = pr.communicate()
+        reap(pr)
+        if pr.returncode != 0:
+            raise ToolError("harness run failed rc=%s: %s" % (pr.returncode, (so or "")[-2000:]))
+        cur = key = None
+        h = None
+        ended = False
         for line in open(of, encoding="utf-8"):
-            if line.startswith('{"e":"reset"') or '"e":"reset"' in line[:40]:
+            if '"e":"reset"' in line[:40]:
+                if key is not None:
+                    traces[key] = (cur, h.hexdigest()) if digest else cur
                 o = json.loads(line)
                 ti, k = o["job"].split("#")
-                cur = traces.setdefault((int(ti), int(k)), [])
+                key = (int(ti), int(k))
+                cur = 0 if digest else []
+                h = hashlib.md5()
             elif '"e":"end"' in line[:12]:
-                cur = None
-            elif cur is not None:
-                cur.append(line.rstrip("\n"))
+                if key is not None:
+                    traces[key] = (cur, h.hexdigest()) if digest else cur
+                key = None
+                ended = True
+            elif key is not None:
+                if digest:
+                    cur += 1
+                    h.update(line.encode("utf-8"))
+                else:
+                    cur.append(line.rstrip("\n"))
+        if not ended:
+            raise ToolError("harness run output incomplete: " + of)
         os.remove(of)
         os.remove(jf)
+
+    for pi, part in enumerate(parts):
+        jobs = [{"cfg": texts.items[ti]["cfg"], "files": texts.items[ti]["files"], "opts": {}, "scripts": [sc],
+                 "tag": "%d#%d" % (ti, k), "params": {"none": 0}} for ti, k, sc in part]
+        jf = os.path.join(wd, "%s.%d.json" % (name, pi))
+        of = os.path.join(wd, "%s.%d.ndjson" % (name, pi))
+        json.dump({"jobs": jobs}, open(jf, "w"))
+        del jobs
+        running.append((spawn([HARNESS, "run", jf, of]), jf, of))
+        if len(running) >= MAX_PROCS:
+            collect(running.pop(0))
+    while running:
+        collect(running.pop(0))
     return traces
 
 
@@ -452,15 +540,18 @@ def bind(res, st, wd, batch, name, rng, tier, behaviour_sample=None, nhist=3):
             scripts[ia] = histories(rng, src_codes(batch.cfg_of_text[ia], tstat[ia][2]), nhist, quick)
     for ia, ib, i in beh:
         scripts.setdefault(ib, scripts[ia])
-    traces = run_behaviour(wd, batch.texts, scripts, name + "_run")
+    traces = run_behaviour(wd, batch.texts, scripts, name + "_run", digest=True)
     for ia, ib, i in beh:
         for k in range(len(scripts[ia])):
-            ta, tb = traces.get((ia, k)), traces.get((ib, k))
-            if ta is None or tb is None:
+            da, db = traces.get((ia, k)), traces.get((ib, k))
+            if da is None or db is None:
                 raise ToolError("missing trace for pair %s" % i)
             st["behaviour_runs"] += 1
-            st["trace_lines"] += len(ta)
-            if ta != tb:
+            st["trace_lines"] += da[0]
+            if da != db:
+                # the lines of this one pair: run it again
+                tr = run_behaviour(wd, batch.texts, {ia: [scripts[ia][k]], ib: [scripts[ia][k]]}, name + "_detail")
+                ta, tb = tr[(ia, 0)], tr[(ib, 0)]
                 n = next((j for j in range(min(len(ta), len(tb))) if ta[j] != tb[j]), min(len(ta), len(tb)))
                 report(res, st, batch, i, pres[i], "behaviour differs at trace line %d" % (n + 1),
                        {"script": scripts[ia][k], "line": n + 1, "a": ta[n:n + 2], "b": tb[n:n + 2]})
